@@ -7,6 +7,7 @@ package main
 
 import (
 	"fmt"
+	"reflect"
 	"strings"
 
 	"github.com/jub0bs/cors"
@@ -25,6 +26,72 @@ type Cfg struct {
 	PNANoCors       bool     `json:"pna_nocors,omitempty"`
 	TolInsecure     bool     `json:"tol_insecure,omitempty"`
 	TolPSL          bool     `json:"tol_psl,omitempty"`
+	// ExtraBools names exported bool fields of cors.Config / cors.ExtraConfig
+	// that this harness does not know (a changed tree may have added options)
+	// and that are to be switched on. Empty on the pinned tree. Only the
+	// differential checks (C06, C07, C08, C12), whose oracle is the code's own
+	// earlier self, ever switch unknown options on.
+	ExtraBools []string `json:"extra_bools,omitempty"`
+}
+
+var knownCfgFields = map[string]bool{"Origins": true, "Credentialed": true, "Methods": true, "RequestHeaders": true, "MaxAgeInSeconds": true,
+	"ResponseHeaders": true, "ExtraConfig": true, "PreflightSuccessStatus": true, "PrivateNetworkAccess": true, "PrivateNetworkAccessInNoCORSModeOnly": true,
+	"DangerouslyTolerateInsecureOrigins": true, "DangerouslyTolerateSubdomainsOfPublicSuffixes": true}
+
+// unknownBoolFields lists the exported bool fields of cors.Config and
+// cors.ExtraConfig that the harness has no name for, in declaration order.
+func unknownBoolFields() []string {
+	var out []string
+	for _, t := range []reflect.Type{reflect.TypeOf(cors.Config{}), reflect.TypeOf(cors.ExtraConfig{})} {
+		for i := 0; i < t.NumField(); i++ {
+			f := t.Field(i)
+			if f.IsExported() && f.Type.Kind() == reflect.Bool && !knownCfgFields[f.Name] {
+				out = append(out, f.Name)
+			}
+		}
+	}
+	return out
+}
+
+func setExtraBools(c *cors.Config, names []string) {
+	for _, n := range names {
+		for _, v := range []reflect.Value{reflect.ValueOf(c).Elem(), reflect.ValueOf(&c.ExtraConfig).Elem()} {
+			if f := v.FieldByName(n); f.IsValid() && f.Kind() == reflect.Bool && f.CanSet() {
+				f.SetBool(true)
+			}
+		}
+	}
+}
+
+func getExtraBools(c *cors.Config) []string {
+	var out []string
+	for _, n := range unknownBoolFields() {
+		for _, v := range []reflect.Value{reflect.ValueOf(c).Elem(), reflect.ValueOf(&c.ExtraConfig).Elem()} {
+			if f := v.FieldByName(n); f.IsValid() && f.Kind() == reflect.Bool && f.Bool() {
+				out = append(out, n)
+				break
+			}
+		}
+	}
+	return out
+}
+
+// genCfgX is genCfg plus, on a tree that has options unknown to the harness,
+// a random subset of them switched on (kept only if the result is accepted).
+func genCfgX(r *R) Cfg {
+	c := genCfg(r)
+	unk := unknownBoolFields()
+	if len(unk) == 0 {
+		return c
+	}
+	d := c.clone()
+	d.ExtraBools = subset(r, unk, 0.35)
+	if len(d.ExtraBools) > 0 {
+		if _, err, pan := newMW(d); err == nil && pan == nil {
+			return d
+		}
+	}
+	return c
 }
 
 func cloneStrs(s []string) []string {
@@ -36,6 +103,12 @@ func cloneStrs(s []string) []string {
 
 // Config builds a fresh cors.Config that shares no memory with c.
 func (c Cfg) Config() cors.Config {
+	out := c.config()
+	setExtraBools(&out, c.ExtraBools)
+	return out
+}
+
+func (c Cfg) config() cors.Config {
 	return cors.Config{
 		Origins:         cloneStrs(c.Origins),
 		Credentialed:    c.Credentialed,
@@ -62,11 +135,13 @@ func fromConfig(c *cors.Config) *Cfg {
 		RequestHeaders: cloneStrs(c.RequestHeaders), MaxAge: c.MaxAgeInSeconds, ResponseHeaders: cloneStrs(c.ResponseHeaders),
 		Status: c.PreflightSuccessStatus, PNA: c.PrivateNetworkAccess, PNANoCors: c.PrivateNetworkAccessInNoCORSModeOnly,
 		TolInsecure: c.DangerouslyTolerateInsecureOrigins, TolPSL: c.DangerouslyTolerateSubdomainsOfPublicSuffixes,
+		ExtraBools: getExtraBools(c),
 	}
 }
 
 func (c Cfg) clone() Cfg {
 	c.Origins, c.Methods, c.RequestHeaders, c.ResponseHeaders = cloneStrs(c.Origins), cloneStrs(c.Methods), cloneStrs(c.RequestHeaders), cloneStrs(c.ResponseHeaders)
+	c.ExtraBools = cloneStrs(c.ExtraBools)
 	return c
 }
 
@@ -311,6 +386,11 @@ func shrinkCfg(c Cfg) []Cfg {
 			}
 			out = append(out, d)
 		}
+	}
+	for i := range c.ExtraBools {
+		d := c.clone()
+		d.ExtraBools = append(append([]string{}, c.ExtraBools[:i]...), c.ExtraBools[i+1:]...)
+		out = append(out, d)
 	}
 	if c.MaxAge != 0 {
 		d := c.clone()
